@@ -453,6 +453,17 @@ def judge_c12(ctx, ex):
     by_fact_lo = {}
     for k, v in f_lo.items():
         by_fact_lo.setdefault(k[:5], []).append(v)
+    # an alternative (kind, cardinality) reported at the higher threshold is reported at the lower one too: raising the threshold only removes
+    # (checked under keep_less_specific and discard_useless_constraints_with_positive_closure, the defaults: with either switched off the code deliberately
+    #  hides the '+' alternative or a less frequent one behind the chosen constraint at low thresholds, so it can surface later - observed on the unchanged tree)
+    lo_facts = {kk[:5] for kk in f_lo}
+    strict = all(r["flags"]["keep_less_specific"] and r["flags"]["discard_useless_constraints_with_positive_closure"] for r in (lo, hi))
+    for k in (f_hi if strict else ()):
+        if k[:5] not in lo_facts:
+            if k[4] == "+" and (hi["flags"]["disable_exact_cardinality"] or lo["flags"]["disable_exact_cardinality"]):
+                continue   # '+' produced by generalising an exact cardinality is not an observed alternative of its own
+            cls = "STAGE-nonliteral-filter-before-merge" if tagged and k[3] in ("NONLITERAL", "IRI", "BNode") else None
+            yield ("alternative %r is reported at the higher threshold only" % (k[:5],), True, cls)
     for k, (ratio, count) in f_hi.items():
         if k[4] == "+" and k[5] == "line" and hi["flags"]["disable_exact_cardinality"]:
             continue   # documented: a '+' line may carry the figure of the exact cardinality it generalises
